@@ -89,3 +89,13 @@ def _vmct_limit(rec):
         return False
     # nothing but the call-threaded loop's outcome (and the resulting disagreement) was rejected
     return all(w.endswith("_vmct") or w == "agree" for w in rec["_why"])
+
+
+# ----------------------------------------------------------------------------
+# C19
+@pred("DBG-rec-column-bump")
+def _dbg_bump(rec):
+    # only the own-column conjunct was rejected (the entries equal the modelled bump: "columns_other" absent),
+    # and the run did evaluate through the twice-forcing lazy function
+    log = rec["obs"]["dbg"].get("log", [])
+    return rec["_why"] == ["columns"] and any(l.get("f") == "U_TWICE" for l in log)
